@@ -139,3 +139,70 @@ pub proof fn lemma_dd_iter_done<K, V>(s: Seq<(&K, &V)>, m: Map<K, V>)
         }
     }
 }
+
+/// the merge of a target map with the empty map is the map itself
+pub proof fn lemma_dd_merged_rel_empty<T: RegisterDomain>(a: Map<AbstractIdentifier, T>)
+    ensures dd_merged_rel(a, Map::<AbstractIdentifier, T>::empty()) =~= a,
+{
+}
+
+/// a map of length 0 has no key (vstd: finite maps)
+pub proof fn lemma_dd_len0<T>(a: Map<AbstractIdentifier, T>)
+    ensures a.len() == 0 <==> (forall |k: AbstractIdentifier| !a.contains_key(k)),
+{
+    if a.len() == 0 {
+        assert forall |k: AbstractIdentifier| !a.contains_key(k) by {
+            if a.contains_key(k) { assert(a.dom().contains(k)); assert(a.dom().len() != 0) by { if a.dom().len() == 0 { assert(a.dom() =~= Set::empty()); } } }
+        }
+    } else {
+        if forall |k: AbstractIdentifier| !a.contains_key(k) { assert(a.dom() =~= Set::empty()); }
+    }
+}
+
+/// (C04, intersection) every common member of the operands is a member of the result; an empty result means there is no
+/// common member
+pub proof fn lemma_dd_intersect_props<T: SpecializeByConditional + RegisterDomain>(
+    at: bool, ar: Map<AbstractIdentifier, T>, aa: Option<T>, bt: bool, br: Map<AbstractIdentifier, T>, ba: Option<T>)
+    requires dd_merge_hyp::<T>(), dd_intersect_hyp::<T>(), dd_isect_pre(at, ar, aa, bt, br, ba),
+    ensures
+        forall |c: DdConcrete| #![trigger dd_gamma_c(ar, aa, at, c)] #![trigger dd_gamma_c(br, ba, bt, c)]
+            dd_gamma_c(ar, aa, at, c) && dd_gamma_c(br, ba, bt, c)
+            ==> dd_gamma_c(dd_isect_core_rel(at, ar, bt, br), dd_isect_abs2(at, ar, aa, bt, br, ba), at && bt, c),
+{
+    let cr = dd_isect_core_rel(at, ar, bt, br);
+    let ca = dd_isect_core_abs(at, aa, bt, ba);
+    let a1 = dd_isect_abs1(at, ar, aa, bt, ba);
+    let a2 = dd_isect_abs2(at, ar, aa, bt, br, ba);
+    // the two merges only add absolute values
+    assert forall |v: Bitvector| ca is Some && ca->Some_0.gamma_spec(v) implies a1 is Some && #[trigger] a1->Some_0.gamma_spec(v) by {
+        if ar.len() != 0 && ba is Some { assert(ca->Some_0.merge_spec(&ba->Some_0).gamma_spec(v)); }
+    }
+    assert forall |v: Bitvector| a1 is Some && a1->Some_0.gamma_spec(v) implies a2 is Some && #[trigger] a2->Some_0.gamma_spec(v) by {
+        if aa is Some && br.len() != 0 { assert(a1->Some_0.merge_spec(&aa->Some_0).gamma_spec(v)); }
+    }
+    assert forall |c: DdConcrete| dd_gamma_c(ar, aa, at, c) && dd_gamma_c(br, ba, bt, c)
+        implies dd_gamma_c(cr, a2, at && bt, c) by {
+        if !(at && bt) {
+            match c {
+                DdConcrete::Abs(v) => {
+                    if !at && !bt {
+                        let x = aa->Some_0; let y = ba->Some_0;
+                        assert(x.intersect_spec(&y) is Some && x.intersect_spec(&y)->Some_0.gamma_spec(v));
+                    }
+                    assert(ca is Some && ca->Some_0.gamma_spec(v));
+                    assert(a1 is Some && a1->Some_0.gamma_spec(v));
+                    assert(a2 is Some && a2->Some_0.gamma_spec(v));
+                },
+                DdConcrete::Rel(id, off) => {
+                    if !at && !bt {
+                        let x = ar[id]; let y = br[id];
+                        assert(ar.contains_key(id) && br.contains_key(id));
+                        assert(x.intersect_spec(&y) is Some && x.intersect_spec(&y)->Some_0.gamma_spec(off));
+                        assert(dd_intersect_keeps(ar, br, id));
+                        assert(cr.contains_key(id));
+                    }
+                },
+            }
+        }
+    }
+}
